@@ -902,6 +902,8 @@ enum WMode {
     Int,
     Quarter,
     Float,
+    /// arbitrary floats times 2^64 or 2^66: totals stay far inside the f32 range, squares do not
+    Huge,
 }
 
 fn gen_weights(rng: &mut Rng, n: usize, mode: WMode) -> (Option<Vec<f32>>, bool) {
@@ -918,6 +920,10 @@ fn gen_weights(rng: &mut Rng, n: usize, mode: WMode) -> (Option<Vec<f32>>, bool)
             Some((0..n).map(|_| if rng.gen_bool(0.05) { 0.0 } else { 0.5 + 1.5 * rng.gen::<f32>() }).collect()),
             false,
         ),
+        WMode::Huge => {
+            let scale = if rng.gen_bool(0.5) { 18446744073709551616.0f32 } else { 73786976294838206464.0f32 };
+            (Some((0..n).map(|_| (0.5 + 1.5 * rng.gen::<f32>()) * scale).collect()), false)
+        }
     }
 }
 
@@ -1456,7 +1462,7 @@ fn body(family: &str, c: &mut Case, sh: &Shared) -> Outcome {
         "random-string" => random_case(c, LT::Str, &EXACT_W, sh.nmax),
         "random-float-weights" => {
             let lt = [LT::Usize, LT::Bool, LT::Str][(c.idx % 3) as usize];
-            random_case(c, lt, &[WMode::Float], sh.nmax)
+            random_case(c, lt, &[WMode::Float, WMode::Float, WMode::Huge], sh.nmax)
         }
         "dense-float-neighbourhood" => dense_case(c),
         "zero-leaf-weight" => zero_leaf_case(c),
